@@ -738,6 +738,21 @@ func checkC19(c *Ctx) {
 					n++
 					where = append(where, FStr(fn))
 				}
+				// a store made by a small generic helper into the map it is handed: counts where it is handed this one
+				if cl, ok := i.(*ssa.Call); ok && smallGenericHelper(cl.Call.StaticCallee()) {
+					h := cl.Call.StaticCallee()
+					for ai, a := range cl.Call.Args {
+						if ai >= len(h.Params) || !strings.HasSuffix(Desc(a), reg) {
+							continue
+						}
+						AllInstrs(h, func(hi ssa.Instruction) {
+							if mu, isMu := hi.(*ssa.MapUpdate); isMu && mu.Map == ssa.Value(h.Params[ai]) {
+								n++
+								where = append(where, FStr(fn)+" (through "+h.Name()+")")
+							}
+						})
+					}
+				}
 			})
 		})
 		c.Check(n == 1, "R19.4", "registry "+reg, "single-writer", 0, "exactly one map store into %s in non-test code (found %d in %v)", reg, n, where)
@@ -1009,7 +1024,8 @@ func c19Registry(c *Ctx, fn *ssa.Function, reg, mutex string, guards []string, k
 	nStores := 0
 	AllInstrs(fn, func(i ssa.Instruction) {})
 	seqs, trunc := ConcPaths(fn, ConcCfg{
-		Inline: func(h *ssa.Function) bool { return FStr(h) != "go.uber.org/zap.normalizeScheme" },
+		Inline:    func(h *ssa.Function) bool { return FStr(h) != "go.uber.org/zap.normalizeScheme" },
+		InlineAny: smallGenericHelper,
 		Event: func(in ssa.Instruction, st *ConcState) string {
 			switch x := in.(type) {
 			case *ssa.Call:
